@@ -111,3 +111,33 @@ def class_info():
         cid = c.id.value if isinstance(c.id, enum.Enum) else str(c.id)
         out.append((c, cid, funcs))
     return out, enums
+
+
+def typed_decoding(conv, text):
+    """The typed decoding of a reported text for a function, computed from what the function's converter DECLARES (its
+    kind, its enum class, the order of alternatives) and not by calling its methods: an independent reading of "the
+    typed decoding" for the monitors' references.  Kinds it does not know are asked themselves."""
+    from ynca import converters as C
+
+    t = type(conv)
+    if t is C.MultiConverter and isinstance(getattr(conv, "_converters", None), (list, tuple)):
+        for sub in conv._converters:
+            try:
+                return typed_decoding(sub, text)
+            except Exception:  # noqa: next alternative
+                pass
+        raise ValueError(text)
+    if t is C.EnumConverter and isinstance(getattr(conv, "datatype", None), type):
+        return conv.datatype(text)
+    if t is C.IntConverter:
+        return int(text)
+    if t is C.IntOrNoneConverter:
+        try:
+            return int(text)
+        except ValueError:
+            return None
+    if t is C.FloatConverter:
+        return float(text)
+    if t is C.StrConverter:
+        return text
+    return conv.to_value(text)
